@@ -6,17 +6,21 @@
 (* and records the run, which JsonForms_Trace then judges.                     *)
 EXTENDS JsonForms, Json
 VARIABLE vec
-gvars == <<m, vec>>
+gvars == <<m, tgt, vec>>
 
 RTVec(ty, c) == [k |-> "RT", ty |-> ty, cls |-> c.cls, val |-> c.v, mut |-> (IF c.cls \in MutBaseCls(ty) THEN 1 ELSE 0)]
                 @@ (IF "canon" \in DOMAIN c THEN [canon |-> c.canon] ELSE <<>>)
 Vectors ==
        UNION { { RTVec(ty, c) : c \in Classes(ty) } : ty \in AllTypes }
   \cup UNION { { [k |-> "Dec", ty |-> ty, cls |-> o.cls, doc |-> BytesToHex(o.doc)] : o \in OutsideDocs(ty) } : ty \in AllTypes }
+  \* value A, then value B of another class, decoded into ONE reused target (JsonForms section 4b)
+  \cup UNION { { [k |-> "Seq", ty |-> ty, cls |-> StrCat(p[1].cls, StrCat(" -> ", p[2].cls)), vals |-> <<p[1].v, p[2].v>>]
+                 : p \in SeqPairs(ty) } : ty \in AllTypes }
 
 None == [k |-> "none"]
-Init == m = M0 /\ vec = None
+Init == m = M0 /\ tgt = FreshTarget /\ vec = None
 Next == /\ vec = None /\ m.phase = "idle"
+        /\ UNCHANGED tgt
         /\ \E v \in Vectors : /\ vec' = v
                               /\ IF v.k = "RT" THEN Pick(v.ty, v.val) ELSE UNCHANGED m
 Spec == Init /\ [][Next]_gvars
